@@ -34,6 +34,25 @@ class FHolder(Path):
 '''
 
 
+# reference shapes outside universe U3 (spec/Closure.tla, MiscShapes): the class names carry the shape they belong to
+MISC = {
+    # the root package re-exports a class whose own signature needs an import
+    "__init__.py": "from .inner.impl import RootrxWidget\n",
+    "inner/__init__.py": "",
+    "inner/impl.py": "from clomisc.inner.other import RootrxPart\n\n\nclass RootrxWidget:\n    def m(self, p: RootrxPart) -> RootrxPart:\n        ...\n",
+    "inner/other.py": "class RootrxPart:\n    pass\n",
+    # a module whose name is a prefix of the module it uses
+    "model.py": "from clomisc.model_utils import PrefixsibHelper\n\n\ndef prefixsib_use(h: PrefixsibHelper) -> PrefixsibHelper:\n    ...\n",
+    "model_utils.py": "class PrefixsibHelper:\n    pass\n",
+    # a class of the package that is named like a class of another library used elsewhere in the package
+    "bigdecimal.py": "class Decimal:\n    pass\n",
+    "money.py": "from decimal import Decimal\n\n\ndef samesuffix_pay(d: Decimal) -> Decimal:\n    ...\n",
+    # a nested class used from another module
+    "nestdef.py": "class NestedOuter:\n    class NestedInner:\n        pass\n",
+    "nestuse.py": "from clomisc.nestdef import NestedOuter\n\n\ndef nested_use(i: NestedOuter.NestedInner) -> NestedOuter:\n    ...\n",
+}
+
+
 def scenario_files(u, root: str) -> dict:
     t = dict(u["t"], id=u["id"])
     sid = f"s{u['id']:04d}"
@@ -125,13 +144,17 @@ def run_obs(r, scen_by_id, nc) -> dict:
                     refs.append({"name": x["name"], "pos": x["pos"], "tparam": x["tparam"], "kind": "u3",
                                  "sc": {"t": u["t"], "via": u["via"], "second": u.get("second", {}).get("segs") or [], "own": u["own"] and "ownref" in rel or (u["own"] and "refmod" not in rel)}})
                 else:
+                    shape = next((k for k in ("Rootrx", "Prefixsib", "Nested") if x["name"].startswith(k)), "")
+                    shape = "samesuffix" if x["name"] == "Decimal" and "money" in rel else shape.lower()
                     refs.append({"name": x["name"], "pos": x["pos"], "tparam": x["tparam"],
-                                 "kind": ("generic-foreign" if x["args"] else "foreign") + ":" + x["pos"], "sc": {"t": None_T, "via": "def", "own": False, "second": []}})
+                                 "kind": (shape or ("generic-foreign" if x["args"] else "foreign")) + ":" + x["pos"], "sc": {"t": None_T, "via": "def", "own": False, "second": []}})
         imports = []
         for frm, name, alias in f.imports:
             m = SFX.search(name)
             u = scen_by_id.get(int(m.group(1))) if m else None
-            imports.append({"from": frm, "name": alias or name, "kind": "u3" if u else "foreign",
+            shape = next((k.lower() for k in ("Rootrx", "Prefixsib", "Nested") if name.startswith(k)), "")
+            shape = "samesuffix" if name == "Decimal" and "money" in rel else shape
+            imports.append({"from": frm, "name": alias or name, "kind": "u3" if u else (shape or "foreign"),
                             "sc": {"t": u["t"], "via": u["via"], "own": False, "second": u.get("second", {}).get("segs") or []} if u else {"t": None_T, "via": "def", "own": False, "second": []}})
         files.append({"rel": rel, "package": f.package, "decls": decls, "imports": imports, "refs": refs})
     return {"files": files, "nc": nc, "unparsable": sorted(stubs.errors)}
@@ -161,9 +184,10 @@ def main(v: Verdict) -> None:
             packs.append(write_pkg(files, root, siblings=FOREIGN_LIB))
             continue
         packs.append(write_pkg(files, root))
+    packs.append(write_pkg(MISC, "clomisc"))
     jobs, meta = [], []
     for d in packs:
-        for nc in ((False, True) if TIER == "thorough" else (False,)):
+        for nc in ((False, True) if TIER == "thorough" or d.name == "clomisc" else (False,)):
             jobs.append({"src": d, "opts": Opts(nc=nc), "timeout": 600})
             meta.append((d.name, nc))
     if TIER == "quick":          # naming conversion on a sample of the packs
